@@ -479,6 +479,15 @@ func (f *Frame) entryHeapOrSelf(g *Frame) Heap {
 
 // addIterNames exposes range-iterator ghost state of the loop to invariants: iterpos / visited / itercount
 func (f *Frame) addIterNames(env map[string]Val, li *loopInfo, heap Heap) {
+	// entry values of parameters: <name>0 (parameters are mutable, so the plain name denotes the current value)
+	for _, p := range f.fn.Params {
+		if _, taken := env[p.Name()+"0"]; taken {
+			continue
+		}
+		if v, ok := f.tryVal(p); ok {
+			env[p.Name()+"0"] = v
+		}
+	}
 	for _, ins := range li.header.Instrs {
 		nx, ok := ins.(*ssa.Next)
 		if !ok {
